@@ -1,7 +1,7 @@
 (* C02 -- the Verilog reader yields the circuit the netlist denotes.  Statements only; proofs in Proofs/VerilogProofs.v. *)
 From CG Require Import Verilog.ExprParse.
 From stdpp Require Import strings gmap sets.
-From CG Require Import Types Sem Api Gen.Gen_grammar Verilog.Ast Verilog.Read Verilog.Write Proofs.VerilogProofs Run.Run_C02 Proofs.VerilogReadProofs Proofs.VerilogDenoteProofs.
+From CG Require Import Types Sem Api Gen.Gen_grammar Verilog.Ast Verilog.Read Verilog.Write Proofs.VerilogProofs Run.Run_C02 Proofs.VerilogReadProofs Proofs.VerilogDenoteProofs Proofs.VerilogBbProofs.
 Open Scope string_scope.
 
 (* (1) obligation on the regenerated rule table of verilog.lark (expression .. primary, named_port_connection,
@@ -99,12 +99,14 @@ Theorem C02_prim_instance_exact : ∀ k t g nm n fi g', prim_instance k t g (nm,
 Proof. exact prim_instance_exact. Qed.
 Print Assumptions C02_prim_instance_exact.
 
-(* (4) read_denotes, soundness half, blackbox-free modules of the subset: every consistent valuation of the circuit that
-   was read satisfies the module - every continuous assignment and every primitive instance (expression operands, repeated
-   operands of parity gates included) holds, all 1'bx being the value of the node tie_x.  Proof: invariant `rinv` over the item
-   fold; every reader step refines on the reserved names, every equation is proved at its own step. *)
+(* (4) read_denotes, soundness half, every module of the subset (blackbox instances included): every consistent valuation of
+   the circuit that was read satisfies the module - every continuous assignment and every primitive instance (expression
+   operands, repeated operands of parity gates included) holds, all 1'bx being the value of the node tie_x.  A blackbox
+   instance adds no equation: its pins are new free nodes, the nets on its output pins become buffers of these pins.
+   Proof: invariant `rinv` over the item fold (Proofs/VerilogDenoteProofs.v, Proofs/VerilogBbProofs.v); every reader step
+   refines on the reserved names, every equation is proved at its own step. *)
 Theorem C02_read_denotes_sound : ∀ rsv bbs m C,
-  in_subset bbs m = true → bbfree m → list_to_set (module_ids m) ⊆ rsv →
+  in_subset bbs m = true → list_to_set (module_ids m) ⊆ rsv →
   read rsv bbs m = Ok C → ∀ w, consistent (c_g C) w → ∃ x, sat_module m w x.
 Proof. exact read_denotes_sound. Qed.
 Print Assumptions C02_read_denotes_sound.
@@ -116,9 +118,10 @@ Theorem C02_prim_sel_value : ∀ k t rs v, t ∈ gate_types → rs ≠ [] → (t
 Proof. exact prim_sel_value. Qed.
 Print Assumptions C02_prim_sel_value.
 
-(* full statement for whole modules (both directions, blackbox instances included); not proved: the soundness half for
-   blackbox-free modules is C02_read_denotes_sound above, the rest is decided per generated module by Run_C02.holds (which
-   evaluates the same guard in_subset and the executable form `denotes` of the conclusion); see docs/C02-handover.md *)
+(* full statement for whole modules (both directions, blackbox instances included); not proved: the soundness half is
+   C02_read_denotes_sound above, the rest (success of the read, registry and pins, the converse) is decided per generated
+   module by Run_C02.holds (which evaluates the same guard in_subset and the executable form `denotes` of the conclusion);
+   see docs/C02-handover.md *)
 Definition C02_read_denotes_full : Prop := ∀ rsv bbs m,
   ports_match m = true → in_subset bbs m = true → list_to_set (module_ids m) ⊆ rsv →
   ∃ C, read rsv bbs m = Ok C ∧ c_name C = m_name m ∧
@@ -134,8 +137,6 @@ Definition ex_mod : vmodule :=
      [IInput ["a"; "b"]; IOutput ["o"; "not_a"];
       IAssign [("o", CTern (OXor (XAnd (AUn (UNot (PId "a"))))) (OXor (XXor (XAnd (L02 (PId "a"))) (L02 (PId "b")))) (L04 (PConst K0)));
                ("not_a", L25 (AAnd (L02 (PId "a")) (UPrim (PId "b"))))]].
-Example C02_ex_bbfree : bbfree ex_mod.
-Proof. intros mn insts Hin. unfold ex_mod, Md in Hin. simpl in Hin. rewrite !elem_of_cons, elem_of_nil in Hin. naive_solver. Qed.
 Example C02_ex_in_subset : ports_match ex_mod = true ∧ in_subset [] ex_mod = true ∧ bool_decide (list_to_set (module_ids ex_mod) ⊆ ex_rsv) = true.
 Proof. vm_compute. done. Qed.
 Example C02_ex_read : match read ex_rsv [] ex_mod with Ok C => denotes [] ex_mod C | _ => false end = true.
@@ -148,3 +149,15 @@ Proof.
   split; [vm_compute; reflexivity|].
   split; [exists (mk_node C0 false ∅)|exists (mk_node C1 false ∅)]; (split; [vm_compute; reflexivity|done]).
 Qed.
+(* a module with a blackbox instance (connected input pin with an expression, output pin on a net, open pin) is in the subset
+   and is read into a circuit that `denotes` it *)
+Definition ex_ff : bbdef := mk_bb "ff" ["clk"; "d"] ["q"].
+Definition ex_mod_bb : vmodule :=
+  Md "top" ["a"; "clk"; "o"]
+     [IInput ["a"; "clk"]; IOutput ["o"]; IWire ["w"];
+      IInst "ff" [("u1", Named [("d", Some (L25 (AAnd (L02 (PId "a")) (UNot (PId "w"))))); ("clk", Some (L05 (PId "clk"))); ("q", Some (L05 (PId "w")))])];
+      IInst "not" [("g0", Positional [L05 (PId "o"); L05 (PId "w")])]].
+Definition ex_rsv_bb : gset string := list_to_set (module_ids ex_mod_bb).
+Example C02_ex_bb : ports_match ex_mod_bb = true ∧ in_subset [ex_ff] ex_mod_bb = true ∧
+  match read ex_rsv_bb [ex_ff] ex_mod_bb with Ok C => denotes [ex_ff] ex_mod_bb C | _ => false end = true.
+Proof. vm_compute. done. Qed.
